@@ -879,16 +879,17 @@ func sectionRobust(rng *vh.Rng) {
 // end to end, in a child process per batch
 
 type e2eReq struct {
-	Kind  string `json:"kind"` // write | query | exec | raw
-	Tags  string `json:"tags,omitempty"`
-	Flds  string `json:"flds,omitempty"`
-	Evs   []e2eE `json:"evs,omitempty"`
-	Query string `json:"query,omitempty"`
-	Pos   string `json:"pos,omitempty"`
-	Off   int    `json:"off,omitempty"`
-	Lim   int    `json:"lim,omitempty"`
-	Func  int    `json:"func,omitempty"` // raw: rpc function id
-	Body  string `json:"body,omitempty"` // raw: hex
+	Kind   string `json:"kind"` // write | query | exec | raw
+	Tags   string `json:"tags,omitempty"`
+	Flds   string `json:"flds,omitempty"`
+	Evs    []e2eE `json:"evs,omitempty"`
+	Query  string `json:"query,omitempty"`
+	Pos    string `json:"pos,omitempty"`
+	Off    int    `json:"off,omitempty"`
+	Lim    int    `json:"lim,omitempty"`
+	Func   int    `json:"func,omitempty"`   // raw: rpc function id
+	Expect string `json:"expect,omitempty"` // the answer this request must get (ok | operr), when it is known
+	Body   string `json:"body,omitempty"`   // raw: hex
 }
 type e2eE struct {
 	Ts     int64  `json:"ts"`
@@ -972,6 +973,12 @@ func runE2EBatch(sec *vh.Section, b e2eBatch, verbose bool) {
 			What: "a Write was acknowledged but reading the partition back fails or does not return its events (a stored record that no later read can decode)"})
 	}
 	for i, a := range out.Answers {
+		if e := b.Reqs[i].Expect; e != "" && a != e && a != "timeout" && a != "transport-error" {
+			res.SpecFail(vh.SpecFailure{Section: "e2e", Kind: "wrong-answer", Input: e2eBatch{Reqs: b.Reqs[:i+1]}, Impl: a, Spec: e,
+				What: "the server's answer to the last request of the recorded batch is not the expected one (a malformed body must be refused with an error)"})
+		}
+	}
+	for i, a := range out.Answers {
 		if a == "timeout" || a == "transport-error" {
 			res.SpecFail(vh.SpecFailure{Section: "e2e", Kind: "no-answer", Input: e2eBatch{Reqs: b.Reqs[:i+1]}, Impl: a, Spec: "a result or an error",
 				What: "the server did not answer a request (the last of the recorded batch) within 10 s"})
@@ -980,9 +987,37 @@ func runE2EBatch(sec *vh.Section, b e2eBatch, verbose bool) {
 	}
 }
 
+// f13Bodies: the two former witnesses and four length corruptions of valid bodies from the class
+func f13Bodies(rng *vh.Rng) []e2eReq {
+	rs := []e2eReq{{Kind: "raw", Func: 100, Body: "ffffffffffffffffff01", Expect: "operr"},
+		{Kind: "raw", Func: 200, Body: "0000000000000001feffffffffffffff7f", Expect: "operr"}}
+	big := []uint64{1<<63 - 1, 1 << 63, 1<<64 - 1, 1<<63 - 2, 1<<64 - 2}
+	for k := 0; k < 4; k++ {
+		kind, fn := "wp", 100
+		buf := rpc.VerifC13EncodeWritePacket(rng.PickS(tagPool), "a=b", genEvents(rng, 2))
+		if k%2 == 1 {
+			kind, fn = "qreq", 200
+			q := genQueryRequest(rng)
+			q.WaitTimeout, q.Limit = 0, 1
+			buf = rpc.VerifC13WriteQueryRequest(q)
+		}
+		ly := layouts[kind]
+		lens, _ := walk(buf, ly[0], ly[1])
+		j := rng.Intn(len(lens))
+		lp := lens[j]
+		nb := append(append(append([]byte{}, buf[:lp.off]...), varint(big[rng.Intn(len(big))])...), buf[lp.off+lp.n:]...)
+		r := e2eReq{Kind: "raw", Func: fn, Body: vh.Hx(nb)}
+		if j < 2 || kind == "qreq" {
+			r.Expect = "operr" // a corrupted length inside the event list of a write only ends the batch: the write is acknowledged
+		}
+		rs = append(rs, r)
+	}
+	return rs
+}
+
 func sectionE2E(rng *vh.Rng) {
 	sec := res.Section("e2e", "system-correspondence",
-		"batches of ~60 hostile requests against a real server (server.Start wiring, loop-back RPC) running in a child process: typed Write (odd tags, field texts, messages), typed Query (generated/mutated LQL, odd positions, offsets, limits), Execute (generated/mutated statements), and RAW request bodies sent to the Write / Query / Execute / EnsurePipe endpoints (truncated and length-corrupted encodings outside the F13/F44 classes — those are exercised only at unit level because they end the process — and random bytes / broken JSON); after the batch the server must still accept a write and answer a query for it. non-trivial = every request")
+		"batches of ~60 hostile requests against a real server (server.Start wiring, loop-back RPC) running in a child process: typed Write (odd tags, field texts, messages), typed Query (generated/mutated LQL, odd positions, offsets, limits), Execute (generated/mutated statements), and RAW request bodies sent to the Write / Query / Execute / EnsurePipe endpoints (truncated and length-corrupted encodings incl. the former F13 class, which must be refused with an error; bodies that panic or store undecodable fields at unit level are not sent; random bytes / broken JSON); after the batch the server must still accept a write and answer a query for it. non-trivial = every request")
 	batches := 3
 	if args.Thorough {
 		batches = 40
@@ -1023,6 +1058,9 @@ func sectionE2E(rng *vh.Rng) {
 				}
 			}
 		}
+		// the former F13 class (a length varint >= 2^63 - idx) no longer ends the process: it goes to the real server too and
+		// must be refused with an error
+		b.Reqs = append(b.Reqs, f13Bodies(rng)...)
 		for len(b.Reqs) < 60 {
 			switch rng.Intn(8) {
 			case 0, 1:
